@@ -80,6 +80,7 @@ type checkResult struct {
 	Missing    map[string][]string
 	Assumed    map[string]bool
 	LoadSecs   float64
+	Eng        *vc.Engine
 	SolveSecs  float64
 }
 
@@ -107,6 +108,7 @@ func runProperty(id string, pc *PropConfig, repo string, overlay map[string][]by
 		return res
 	}
 	res.LoadSecs = time.Since(t0).Seconds()
+	res.Eng = eng
 	kfByObl := map[string][]vc.KFExcept{}
 	for _, k := range kfs {
 		if k.Property == id {
@@ -318,6 +320,9 @@ func report(id string, pc *PropConfig, res *checkResult, tier string, seed int, 
 	var violNames []string
 	for _, ob := range viols {
 		code = 1
+		if res.Eng != nil && tier != "selftest" {
+			ob.ReplayNote = replayScalar("/repo", res.Eng.FindFunc(ob.Func), ob)
+		}
 		path := writeReplay(id, ob, res.Emitters[ob])
 		suffix := ""
 		if !strings.Contains(ob.ReplayNote, "failing input:") {
@@ -392,7 +397,7 @@ func writeReplay(id string, ob *vc.Obligation, em *vc.Emitter) string {
 	rep := map[string]any{
 		"property": id, "obligation": ob.Name, "kind": ob.Kind, "function": ob.Func, "position": ob.Pos.String(),
 		"goal": ob.Goal, "path_condition": ob.PC, "smt_file": smt, "solver_status": ob.Result.Status,
-		"solver_backends": ob.Result.All, "solver_output": out, "replay": ob.ReplayNote,
+		"solver_backends": ob.Result.All, "solver_output": out, "candidate_model_without_quantified_assumptions": ob.Result.Candidate, "replay": ob.ReplayNote,
 	}
 	path := filepath.Join(dir, base+".json")
 	data, _ := json.MarshalIndent(rep, "", " ")
